@@ -251,6 +251,23 @@ fn parse_event(case: &Value, text: &str, parsed: &Outcome<Components>, events: &
         Some(a) => a.iter().map(AbsComp::from_json).filter(|c| c.kind != "NEED").collect(),
         None => events.first().map(|e| abs_from_hook(&e["data"])).unwrap_or_default(),
     };
+    // declared demand lines, in file order: the NEED components of the abstract input or, for inputs given
+    // as text, the DEMANDA lines tokenised here (tag, service, values; nothing is added up)
+    let declared_needs: Vec<AbsComp> = match case["src"]["comps"].as_array() {
+        Some(a) => a.iter().map(AbsComp::from_json).filter(|c| c.kind == "NEED").collect(),
+        None => text
+            .lines()
+            .filter_map(|ln| {
+                let body = ln.trim_start_matches('\u{feff}').splitn(2, '#').next().unwrap_or("");
+                let toks: Vec<&str> = body.split(',').map(str::trim).collect();
+                if toks.len() < 3 || toks[0] != "DEMANDA" {
+                    return None;
+                }
+                let v: Option<Vec<f64>> = toks[2..].iter().map(|t| t.parse::<f64>().ok()).collect();
+                v.map(|v| AbsComp { kind: "NEED".into(), id: 0, cr: "-".into(), srv: toks[1].into(), src: "-".into(), v, cm: String::new() })
+            })
+            .collect(),
+    };
     let steps: Vec<Value> = events
         .iter()
         .map(|e| {
@@ -267,6 +284,7 @@ fn parse_event(case: &Value, text: &str, parsed: &Outcome<Components>, events: &
                             if c.kind == "AUX" { c.srv = "NEPB".into(); }
                             c.to_json(q)
                         }).collect()),
+                        "input_needs": Value::Array(declared_needs.iter().map(|c| c.to_json(q)).collect()),
                         "steps": steps, "textlen": text.len()});
     ev["out"] = match parsed {
         Outcome::Ok(c) => {
